@@ -48,6 +48,51 @@ prop("C24", "K", "model_checking",
      technique="Kani/CBMC bounded model checking of all opcode helpers against a name-derived expected operator",
      outside="byte emission of the injected operator (wasm-encoder, via RoundtripReencoder::instruction); the injection bookkeeping of the real Inject implementors (C15/C22); the hand-reviewed name-normalisation table in vlib/genopcode.py is trusted")
 
+prop("C18", "T", "translation_validation",
+     text="(wip) engine T block entry",
+     technique="z3 bounded trace equivalence between the output of the real lowering and the prescribed event trace",
+     outside="wip")
+
+prop("C15", "T", "translation_validation",
+     text="(wip) engine T",
+     technique="z3 bounded trace equivalence between the output of the real lowering and the prescribed event trace",
+     outside="wip")
+
+prop("C16", "T", "translation_validation",
+     text="(wip) engine T",
+     technique="z3 bounded trace equivalence between the output of the real lowering and the prescribed event trace",
+     outside="wip")
+
+prop("C17", "T", "translation_validation",
+     text="(wip) engine T",
+     technique="z3 bounded trace equivalence between the output of the real lowering and the prescribed event trace",
+     outside="wip")
+
+prop("C19", "T", "translation_validation",
+     text="(wip) engine T",
+     technique="z3 bounded trace equivalence between the output of the real lowering and the prescribed event trace",
+     outside="wip")
+
+prop("C20", "T", "translation_validation",
+     text="(wip) engine T",
+     technique="z3 bounded trace equivalence between the output of the real lowering and the prescribed event trace",
+     outside="wip")
+
+prop("C21", "T", "translation_validation",
+     text="(wip) engine T",
+     technique="z3 bounded trace equivalence between the output of the real lowering and the prescribed event trace",
+     outside="wip")
+
+prop("C22", "T", "translation_validation",
+     text="(wip) engine T",
+     technique="z3 bounded trace equivalence between the output of the real lowering and the prescribed event trace",
+     outside="wip")
+
+prop("C05", "T", "translation_validation",
+     text="(wip) engine T",
+     technique="z3 bounded trace equivalence between the output of the real lowering and the prescribed event trace",
+     outside="wip")
+
 
 def generated_harness_files(pid, tier, seed):
     out = {}
